@@ -471,6 +471,27 @@ def run_C05(ctx, proof_ok):
             "distribution": {"model_cases": n1, "pathway_cases": n2, **{k: int(v) for k, v in dist2.items()}, "identity_cases": n3}}
 
 
+def run_C15(ctx, proof_ok):
+    import imgc
+
+    E = epg()
+    r = lib.rng(15)
+    cases = [imgc.gen_case(r) for _ in range(budget(ctx.tier, 150, 2500))]
+    n1, d1, dist1 = imgc.compare(cases, E)
+    n2, d2 = imgc.search_options(r, E, budget(ctx.tier, 40, 800))
+    ctx.violations.extend(d1 + d2)
+    return {"evaluations": n1 + n2, "distinct_nontrivial": n1 + n2,
+            "rule": "states produced by random sequences with n-D integer / gridded float / gradient / time-accumulation shifts "
+                    "(the C04 generator), then Imaging(position, voxel box|point, voxel_size, phase, modulation real/imaginary) "
+                    "acquired twice with the same instance: value vs the Lean Imaging model run by the driver; vs the average over "
+                    "the voxel (12-point Gauss-Legendre per axis) of the Bloch isochromats computed by the Lean specification, with "
+                    "the imaginary modulation as off-resonance; options search: batches of flip angles, several positions, weights "
+                    "and modulation through System() vs probe arguments, weights as plain multiplication, reduce=True as the sum, "
+                    "simulate() twice on the same sequence object",
+            "samples": [lib.jsonable({k: v for k, v in cases[-1].items() if not k.startswith("_")})],
+            "distribution": {"model_cases": n1, **{k: int(v) for k, v in dist1.items()}, "option_cases": n2}}
+
+
 def merge_results(a, b, rule):
     out = dict(a)
     out["evaluations"] = a["evaluations"] + b["evaluations"]
@@ -890,6 +911,20 @@ PROPS["C05"] = {
                 "a pathway, D acts state-wise on the coordinate table; the statement 'signal = sum over pathways' itself is decided "
                 "by the explicit pathway enumeration on the real code, not by a theorem (linearity of the EPG makes it follow from "
                 "the state-wise action, but the pathway expansion is not formalised)"],
+}
+
+PROPS["C15"] = {
+    "lean_modules": ["EpgVerif.Props.C15"],
+    "tie": [],
+    "audit": "EpgVerif/Audit/C15.lean",
+    "run": run_C15,
+    "replay": replay_generic,
+    "theorems_hint": ["box_factor", "box_voxel_is_voxel_average", "point_voxel_is_isochromat", "modulation_term"],
+    "partial": ["proved: sinc form factor = voxel average of e^{iku}; a box voxel is the average of point voxels (one axis; the "
+                "code's product over axes is the iterated average); a point voxel with imaginary modulation is the off-resonant "
+                "Bloch isochromat (composition with C04, three axes + time); real modulation is the per-state factor exp(rate|t|). "
+                "The tol masks, einsum/broadcast plumbing over batch and position axes, weights/reduce and System() are decided "
+                "by execution and the options search only"],
 }
 
 NOT_CLAIMED = {}
